@@ -255,32 +255,22 @@ Proof.
   destruct H as [H|H]; [left; exact H | right; apply IH; exact H].
 Qed.
 
-Lemma find_app_notin g A l r :
-  ~ In g (map fst A) -> find (fun p : grp => Nat.eqb (fst p) g) (A ++ (g, l) :: r) = Some (g, l).
+Lemma index_of_app_notin g (A : list grp) l r :
+  ~ In g (map fst A) -> index_of g (A ++ (g, l) :: r) = Some (length A).
 Proof.
   induction A as [|[h m] A IH]; simpl; intros H.
   - rewrite Nat.eqb_refl. reflexivity.
-  - destruct (Nat.eqb h g) eqn:E.
+  - destruct (Nat.eqb g h) eqn:E.
     + apply Nat.eqb_eq in E. subst. exfalso. apply H. left. reflexivity.
-    + apply IH. intros Hp. apply H. right. exact Hp.
+    + rewrite IH; [reflexivity|]. intros Hp. apply H. right. exact Hp.
 Qed.
 
-Lemma map_other g (x : grp) (A : list grp) :
-  ~ In g (map fst A) -> map (fun p : grp => if Nat.eqb (fst p) g then x else p) A = A.
-Proof.
-  induction A as [|[h m] A IH]; simpl; intros H; [reflexivity|].
-  destruct (Nat.eqb h g) eqn:E.
-  - apply Nat.eqb_eq in E. subst. exfalso. apply H. left. reflexivity.
-  - f_equal. apply IH. intros Hp. apply H. right. exact Hp.
-Qed.
-
-Lemma visit_id_step d A g l r :
-  ~ In g (map fst A) -> ~ In g (map fst r) ->
+Lemma visit_id_step d (A : list grp) g l r :
+  ~ In g (map fst A) ->
   visit_id d (A ++ (g, l) :: r) g = A ++ scrub_spec d [(g, l)] ++ r.
 Proof.
-  intros HA Hr. unfold visit_id. rewrite find_app_notin by exact HA.
-  rewrite map_app. cbn [map fst]. rewrite Nat.eqb_refl.
-  rewrite (map_other g _ A HA), (map_other g _ r Hr).
+  intros HA. unfold visit_id. rewrite index_of_app_notin by exact HA.
+  rewrite nth_error_app_len. unfold scrub_visit. rewrite set_nth_app_len.
   cbn [scrub_spec]. destruct (is_nil (remove_first d l)) eqn:En.
   - rewrite remove_grp_app_notin by exact HA. reflexivity.
   - reflexivity.
@@ -296,9 +286,7 @@ Proof.
     assert (HND := ND). rewrite map_app in HND. cbn [map fst] in HND.
     assert (Hpre : ~ In g (map fst pre)).
     { apply NoDup_remove_2 in HND. intros H. apply HND. apply in_or_app. left. exact H. }
-    assert (Hr : ~ In g (map fst r)).
-    { apply NoDup_remove_2 in HND. intros H. apply HND. apply in_or_app. right. exact H. }
-    rewrite visit_id_step; [| intros H; apply Hpre; eapply scrub_spec_ids; exact H | exact Hr].
+    rewrite visit_id_step; [| intros H; apply Hpre; eapply scrub_spec_ids; exact H].
     rewrite app_assoc, <- scrub_spec_app.
     rewrite (snoc_app pre (g, l) r).
     apply IH. rewrite <- app_assoc. exact ND.
